@@ -494,6 +494,10 @@ def r06_4_5(ctx: Ctx) -> None:
                     and len(st.targets[0].elts) == len(st.value.elts):
                 pairs = {txt(t): txt(v) for t, v in zip(st.targets[0].elts, st.value.elts)}
                 cand_list, sub_list = pairs.get(cand_list, cand_list), pairs.get(sub_list, sub_list)
+        # ... or by plain copies (the same hand-over after the tuple assignment has been split)
+        copies = {st.targets[0].id: st.value.id for st in walk_local(outer) if isinstance(st, ast.Assign) and len(st.targets) == 1
+                  and isinstance(st.targets[0], ast.Name) and isinstance(st.value, ast.Name)}
+        cand_list, sub_list = copies.get(cand_list, cand_list), copies.get(sub_list, sub_list)
         cand_adds = [c for c in calls(outer) if txt(c.func) == f"{cand_list}.append"]
         sub_adds = [c for c in calls(outer) if txt(c.func) == f"{sub_list}.append"]
         if len(cand_adds) == 1 and len(sub_adds) == 1:
